@@ -9,11 +9,13 @@ MUT = "/var/tmp/verif-mut-" + os.environ.get("VERIF_SLOT", "main")
 
 def main():
     only = None
+    exact = None
     tier = "quick"
     a = sys.argv[1:]
     while a:
         x = a.pop(0)
         if x == "--only": only = a.pop(0)
+        elif x == "--exact": exact = a.pop(0)
         elif x == "--seeded": pass
         elif x == "--tier": tier = a.pop(0)
     listfile = os.path.join(HERE, "mutations.json")
@@ -23,6 +25,8 @@ def main():
     rows = []
     for m in muts:
         if only and only not in m["name"]:
+            continue
+        if exact and m["name"] not in exact.split(","):
             continue
         shutil.rmtree(MUT, ignore_errors=True)
         os.makedirs(MUT)
